@@ -129,7 +129,9 @@ def check_C05(tier, seed):
            "rule": "InflateLoop.tla is model-checked (hand-off inside the buffer, termination under weak fairness for every answer sequence of the "
                    "abstract inflate incl. truncated streams and trailing garbage); DecoderInputs.tla enumerates, per decoder, every truncation of a "
                    "valid payload, every boundary class (-1, most negative, 0, 1, fit-1, fit, fit+1, fit+100, 2^31, 2^61, 2^63-1) of every embedded "
-                   "count / length field (also truncated around the guard positions) and 0x00 / 0xFF at every byte; added are all byte strings of "
+                   "count / length field (also truncated around the guard positions), ALL 8-byte count fields of a payload set to the same boundary class "
+                   "(the waveform layouts repeat their count and compare the two first), the signed boundary classes (2^31-1, -2^31, 2^31, -2, 2^63-1, "
+                   "-2^63) of the 1.x beat-index fields alone and in adjacent pairs, and 0x00 / 0xFF at every byte; added are all byte strings of "
                    "length <= 2, every truncation and single-byte corruption of valid compressed blobs, wrong length prefixes, streams crossing the "
                    "16 KiB chunk size, and seed-chosen mutations; every input runs in the ASan+UBSan build under a watchdog; distinct = distinct "
                    "(decoder, byte string) pairs",
